@@ -11,7 +11,7 @@ cd "$REPO" || exit 2
   --deselect tests/test_grout.py \
   --deselect tests/test_main.py::TestProxyContextManager \
   --junitxml="$OUT" >/tmp/stable.log 2>&1
-/venv/bin/python - "$OUT" <<'EOF'
+/venv/bin/python - "$OUT" "$REPO" <<'EOF'
 import json, sys, xml.etree.ElementTree as ET
 b = json.load(open('/root/.vp/BASELINE.json'))
 want = set(b['stable_pass'])
@@ -19,6 +19,7 @@ got = set()
 bad = []
 for tc in ET.parse(sys.argv[1]).getroot().iter('testcase'):
     name = tc.get('classname') + '::' + tc.get('name')
+    name = name.replace('[' + sys.argv[2].rstrip('/') + '/helper/', '[/repo/helper/')
     ok = not any(c.tag in ('failure', 'error', 'skipped') for c in tc)
     if ok:
         got.add(name)
